@@ -104,4 +104,90 @@ theorem facts_agree :
     Gen.C11.isType2 = Gen.C12.isType2 ∧ Gen.C11.isDataObject = Gen.C12.isDataObject ∧ Gen.C11.isArg = Gen.C12.isArg :=
   ⟨rfl, rfl, rfl, rfl, rfl, rfl, rfl, rfl, rfl⟩
 
+/-! ## witnesses: where the property is false today, and where repairs made it true
+
+`agrees w` runs the parser *model* (which the correspondence run ties to the real parser on exactly
+these programs — they are the deterministic boundary cases `b-…` of `harness/aml/c11_test.go`) on
+`encode w` and compares the namespace in the resulting tree with `namespaceOf w`.  Evaluated by the
+Lean kernel (`decide +kernel`; no `native_decide`). -/
+
+private def nm (s : String) : NameP := { segs := [s] }
+private def i1 (v : Nat) : Data := .int 1 v
+private def t1 (v : Nat) : Term := .int 1 v
+
+/-- `Scope(_SB_){Device(DEV0){Device(DEV1){}}} Scope(\_SB_.DEV0.DEV1){Name(N000,1)}` -/
+def wD6 : List (List Obj) :=
+  [[.scope 1 (nm "_SB_") [.device 1 (nm "DEV0") [.device 1 (nm "DEV1") []]],
+    .scope 1 { root := true, segs := ["_SB_", "DEV0", "DEV1"] } [.name (nm "N000") (i1 1)]]]
+
+/-- `Scope(_SB_){Device(DEV0){Name(^N000,1)}}` -/
+def wCaret : List (List Obj) :=
+  [[.scope 1 (nm "_SB_") [.device 1 (nm "DEV0") [.name { carets := 1, segs := ["N000"] } (i1 1)]]]]
+
+/-- `Method(M002,2){} Method(M000,0){ M002(Add(1,2,), 3) }` -/
+def wCallArgExpr : List (List Obj) :=
+  [[.method 1 (nm "M002") 2 [], .method 1 (nm "M000") 0 [.call (nm "M002") [.add (t1 1) (t1 2) none, t1 3]]]]
+
+/-- `Method(M000,0){ If(1){} }` -/
+def wIfEmpty : List (List Obj) := [[.method 1 (nm "M000") 0 [.ifs 1 (t1 1) []]]]
+
+/-- `Method(M001,1){} Method(M000,0){ While(1){ While(2){Noop} M001(3) } }` -/
+def wWhileNested : List (List Obj) :=
+  [[.method 1 (nm "M001") 1 [], .method 1 (nm "M000") 0 [.whiles 1 (t1 1) [.whiles 1 (t1 2) [.noop], .call (nm "M001") [t1 3]]]]]
+
+/-- the witnesses are well-scoped programs: the specification assigns each a namespace without error -/
+theorem witnesses_well_scoped :
+    (namespaceOf wD6).errors = [] ∧ (namespaceOf wCaret).errors = [] ∧ (namespaceOf wCallArgExpr).errors = [] ∧
+    (namespaceOf wIfEmpty).errors = [] ∧ (namespaceOf wWhileNested).errors = [] := by decide +kernel
+
+set_option maxRecDepth 100000 in
+/-- **D6 (known finding)**: a Scope path that continues below a Device is rejected by the parser. -/
+theorem d6_counterexample : modelNs wD6 = none ∧ agrees wD6 = false := by decide +kernel
+
+set_option maxRecDepth 100000 in
+/-- **`^` inside a Device (known finding)**: the table parses, but `N000` is found at `\_SB_.DEV0.N000`
+instead of `\_SB_.N000`. -/
+theorem name_caret_counterexample :
+    agrees wCaret = false ∧
+    (modelNs wCaret).map (fun ns => ns.has ["_SB_", "DEV0", "N000"]) = some true ∧
+    (namespaceOf wCaret).has ["_SB_", "N000"] = true := by decide +kernel
+
+set_option maxRecDepth 100000 in
+/-- **call with an expression argument (known finding)**: the invocation of the two-argument method
+`M002` does not end up with two arguments. -/
+theorem call_arg_expression_counterexample :
+    agrees wCallArgExpr = false ∧ (namespaceOf wCallArgExpr).calls = [(["M002"], 2)] ∧
+    (modelNs wCallArgExpr).map (fun ns => ns.calls) ≠ some [(["M002"], 2)] := by decide +kernel
+
+set_option maxRecDepth 100000 in
+/-- **If with an empty body as last statement (known finding)**: rejected. -/
+theorem if_empty_body_counterexample : modelNs wIfEmpty = none ∧ agrees wIfEmpty = false := by decide +kernel
+
+set_option maxRecDepth 100000 in
+/-- **nested block inside While (known finding)**: the call that follows the inner While is dropped. -/
+theorem while_nested_block_counterexample :
+    agrees wWhileNested = false ∧ (namespaceOf wWhileNested).calls = [(["M001"], 1)] ∧
+    (modelNs wWhileNested).map (fun ns => ns.calls) = some [] := by decide +kernel
+
+
+/-- `Scope(\){Name(N000,1)}` (repaired: baac752) -/
+def wScopeRoot : List (List Obj) := [[.scope 1 { root := true } [.name (nm "N000") (i1 1)]]]
+
+/-- `Method(M001,0){} Method(M000,0){ While(1){ Store(Add(1, M001()), Local0) } }` (repaired: e2a58af) -/
+def wWhileCallExpr : List (List Obj) :=
+  [[.method 1 (nm "M001") 0 [], .method 1 (nm "M000") 0
+      [.whiles 1 (t1 1) [.store (.add (t1 1) (.call (nm "M001") []) none) 0]]]]
+
+/-- forward and backward calls with nested calls as arguments -/
+def wCalls : List (List Obj) :=
+  [[.method 1 (nm "M001") 2 [.ret (.call (nm "M002") [.arg 0, .call (nm "M003") [], .arg 1])],
+    .method 1 (nm "M002") 3 [], .method 1 (nm "M003") 0 [.store (.call (nm "M001") [t1 1, t1 2]) 0]]]
+
+set_option maxRecDepth 100000 in
+/-- **where the parser does meet the property** (model evaluated by the kernel): the two repaired
+witnesses and a program with forward, backward and nested method calls -/
+theorem repaired_and_positive_witnesses :
+    agrees wScopeRoot = true ∧ agrees wWhileCallExpr = true ∧ agrees wCalls = true := by decide +kernel
+
+
 end Firefly.C11
